@@ -264,8 +264,8 @@ def run_scalar(ctx, table, tag):
         idx += 1
         covered.add(name)
         # every shard: its own random points; the fixed grids are done by one shard per function
-        pts = [rng.uniform(-5, 5) for _ in range(ctx.pick(30, 200))]
-        pts += [rng.choice([-1, 1]) * 10 ** rng.uniform(-6, 3) for _ in range(ctx.pick(20, 120))]
+        pts = [rng.uniform(-5, 5) for _ in range(ctx.pick(30, 1500))]
+        pts += [rng.choice([-1, 1]) * 10 ** rng.uniform(-6, 3) for _ in range(ctx.pick(20, 800))]
         fixed = ctx.mine(idx)
         if fixed:
             pts += list(REAL_GRID) + list(POLES.get(name, []))
@@ -274,7 +274,7 @@ def run_scalar(ctx, table, tag):
             else:
                 pts += [1e-300, -1e-300, 1e6, -1e6, PI / 2, PI, -PI / 2]
         if name not in REAL_ONLY:
-            pts += complex_points(rng, ctx.pick(40, 300))[:ctx.pick(40, 300)]
+            pts += complex_points(rng, ctx.pick(40, 2000))[:ctx.pick(40, 2000)]
             if fixed:
                 pts += cpts_fixed
         for z in pts:
